@@ -290,8 +290,64 @@ def run(tier, seed, replay=None):
         finally:
             shutil.rmtree(tmp, ignore_errors=True)
 
-    # ---------------------------------------------------------------- L1: numbering vs the extracted abstract model
+    # ---------------------------------------------------------------- L1: faces() and cell numbers vs Model/Faces.v
+    # structured trilinear patches (cell shape nx x ny x nz), alone or as the second of two disconnected patches (so that
+    # the cell numbers start at an offset): nodes (through the patch's own cp_numbers), owner, neighbour, in the order the
+    # implementation returns them
+    from splipy import Volume
+    face_cases = []
+    for it in range(max(6, reps // 4)):
+        sh = (rng.randint(1, 4), rng.randint(1, 3), rng.randint(1, 3))
+        sh = tuple(rng.sample(sh, 3))
+        second = it % 3 == 2
+        args = dict(cell_shape=list(sh), second_patch=second)
+        try:
+            v = Volume()
+            v.refine(sh[0] - 1, sh[1] - 1, sh[2] - 1)
+            patches = [v]
+            if second:
+                w0 = Volume() + (5, 0, 0)
+                w0.refine(rng.randint(0, 2), rng.randint(0, 1), 0)
+                patches = [w0, v]
+            m = SplineModel(3, 3)
+            m.add(patches)
+            m.generate_cp_numbers()
+            m.generate_cell_numbers()
+            node = [n_ for n_ in m.catalogue.top_nodes() if n_.obj.shape == v.shape and np.allclose(n_.obj.controlpoints, v.controlpoints)][0]
+            start = int(np.asarray(node.cell_numbers).min())
+            fs = np.hstack(node.faces())
+            cpn = np.asarray(node.cp_numbers)
+            shapes = [tuple(len(k) - 1 for k in n_.obj.knots()) for n_ in m.catalogue.top_nodes()]
+            cellnums = [np.asarray(n_.cell_numbers).reshape(-1).tolist() for n_ in m.catalogue.top_nodes()]
+            face_cases.append((args, start, sh, fs, cpn, shapes, cellnums, m.ncells))
+            count('faces vs model')
+        except Exception as e:  # noqa
+            fail('faces', args, 'raised %s' % type(e).__name__)
     corr_bad = C.Corr()
+    flines = []
+    for (args, start, sh, fs, cpn, shapes, cellnums, nc) in face_cases:
+        flines.append('patch_faces %d %d %d %d' % ((start,) + sh))
+        flines.append('cell_numbers %d %s' % (len(shapes), ' '.join('%d %d %d' % s_ for s_ in shapes)))
+    fouts = C.run_model(flines) if flines else []
+    for ci, (args, start, sh, fs, cpn, shapes, cellnums, nc) in enumerate(face_cases):
+        tk = fouts[2 * ci]
+        mf = tk.list(lambda: ([(tk.int(), tk.int(), tk.int()) for _ in range(4)], tk.int(), tk.int()))
+        if len(mf) != len(fs):
+            corr_bad += {'what': 'L1: faces(): %d faces, model %d' % (len(fs), len(mf)), 'op': 'faces', 'args': args}
+            continue
+        for fi, (nodes_, ow_, nb_) in enumerate(mf):
+            want = [int(cpn[ix]) for ix in nodes_]
+            got = [int(x) for x in fs['nodes'][fi]]
+            if want != got or int(fs['owner'][fi]) != ow_ or int(fs['neighbor'][fi]) != nb_:
+                corr_bad += {'what': 'L1: faces(): face %d is nodes %s owner %d neighbour %d, model: nodes %s owner %d neighbour %d'
+                                     % (fi, got, int(fs['owner'][fi]), int(fs['neighbor'][fi]), want, ow_, nb_), 'op': 'faces', 'args': args}
+                break
+        tk = fouts[2 * ci + 1]
+        n_ = tk.int()
+        mnums = tk.list(lambda: tk.list(tk.int))
+        if n_ != nc or mnums != cellnums:
+            corr_bad += {'what': 'L1: cell numbers differ from the model (ncells %d vs %d)' % (nc, n_), 'op': 'cell numbering', 'args': args}
+    # ---------------------------------------------------------------- L1: numbering vs the extracted abstract model
     lines = ['number_model %d %s' % (len(pl), ' '.join('%d %s' % (len(k), ' '.join(map(str, k))) for k, _ in pl)) for _, pl, _ in l1]
     outs = C.run_model(lines) if lines else []
     nl1 = 0
